@@ -870,12 +870,16 @@ class HeaderCommand(TestCommand):
 
     def args_as_tuple(self):
         """Return arguments as a list."""
-        if "," in self.arguments["header-names"]:
+        if isinstance(self.arguments["header-names"], list):
+            result = ([item.strip('"') for item in self.arguments["header-names"]],)
+        elif "," in self.arguments["header-names"]:
             result = tuple(tools.to_list(self.arguments["header-names"]))
         else:
             result = (self.arguments["header-names"].strip('"'),)
         result = result + (self.arguments["match-type"],)
-        if "," in self.arguments["key-list"]:
+        if isinstance(self.arguments["key-list"], list):
+            result = result + ([item.strip('"') for item in self.arguments["key-list"]],)
+        elif "," in self.arguments["key-list"]:
             result = result + tuple(
                 tools.to_list(self.arguments["key-list"], unquote=False)
             )
